@@ -356,4 +356,406 @@ theorem foldlM_inv_done {α β ε : Type} (P : List α → β → Prop) (f : β 
         (fun d b a' b' ha' => hstep d b a' b' (List.mem_cons_of_mem _ ha')) h
       simpa [List.append_assoc] using this
 
+/-- the inner loop (one connection `sd` into `mid`, all entries of `mid`'s row): afterwards the table is closed at
+this connection unless `mid` became dirty again -/
+theorem inner_inv {sims : List SimCfg} (hS : Shaped sims) (hU : Uniform sims) {mid : Sid} {d0 : Descs} {dirty0 : List Sid}
+    {sd : Sid × TI} (hsd : sd ∈ (sims.getD mid {}).inputDelays) (doneOuter : List (Sid × TI)) {c0 c : CycState}
+    (h0 : RInv sims mid d0 dirty0 c0) (hp0 : mid ∉ c0.dirty → ∀ sd' ∈ doneOuter, PairClosed c0.descs mid sd')
+    (hf : (c0.descs.row mid).foldlM (relaxOne mid sd) c0 = .ok c) :
+    RInv sims mid d0 dirty0 c ∧ (mid ∉ c.dirty → ∀ sd' ∈ sd :: doneOuter, PairClosed c.descs mid sd') := by
+  let P : List (Sid × TI × List Sid) → CycState → Prop := fun done c =>
+    RInv sims mid d0 dirty0 c ∧ (∀ x, x ∈ c0.dirty → x ∈ c.dirty) ∧
+      (mid ∉ c.dirty → (∀ sd' ∈ doneOuter, PairClosed c.descs mid sd') ∧ ∀ e ∈ done, DestClosed c.descs mid sd.1 sd.2 e.1)
+  have key := foldlM_inv_done P (relaxOne mid sd) (c0.descs.row mid) [] c0 c
+    ⟨h0, fun _ h => h, fun hm => ⟨hp0 hm, fun e he => by cases he⟩⟩ ?_ hf
+  · obtain ⟨hr, hmono, hcl⟩ := key
+    refine ⟨hr, fun hm sd' hsd' => ?_⟩
+    obtain ⟨hout, hdone⟩ := hcl hm
+    rcases List.mem_cons.mp hsd' with rfl | hsd'
+    · intro dest m hget
+      have hm0 : mid ∉ c0.dirty := fun h => hm (hmono _ h)
+      have hrow : c0.descs.get? mid dest = some m := by rw [h0.row hm0, ← hr.row hm]; exact hget
+      have hmem := Descs.mem_row_of_get? hrow
+      exact hdone _ (by simpa using hmem) m hget
+    · exact hout sd' hsd'
+  · intro done b e b' _ hP hg
+    obtain ⟨hr, hmono, hcl⟩ := hP
+    rcases relaxOne_cases hS hU hsd hr.real hg with ⟨rfl, hdc⟩ | ⟨m, path, hget, rfl, hnew, hle⟩
+    · refine ⟨hr, hmono, fun hm => ?_⟩
+      obtain ⟨hout, hdone⟩ := hcl hm
+      refine ⟨hout, fun e' he' => ?_⟩
+      rcases List.mem_cons.mp he' with rfl | he'
+      · exact hdc
+      · exact hdone e' he'
+    · have hr' := rinv_set hr (v := (TI.add sd.2 m, sd.1 :: path)) hnew hle
+      refine ⟨hr', fun x hx => mem_insertDirty.mpr (Or.inl (hmono x hx)), fun hm => ?_⟩
+      simp only [mem_insertDirty, not_or] at hm
+      obtain ⟨hout, hdone⟩ := hcl hm.1
+      have hb : Below (b.descs.set sd.1 e.1 (TI.add sd.2 m, sd.1 :: path)) b.descs := below_set hle
+      have hrow : ∀ t, (b.descs.set sd.1 e.1 (TI.add sd.2 m, sd.1 :: path)).get? mid t = b.descs.get? mid t := fun t =>
+        Descs.get?_set_ne _ _ _ _ _ _ (by intro h; cases h; exact hm.2 rfl)
+      refine ⟨fun sd' hsd' dest => destClosed_mono hrow hb (hout sd' hsd' dest), fun e' he' => ?_⟩
+      rcases List.mem_cons.mp he' with rfl | he'
+      · intro m' hm'
+        rw [hrow, hget] at hm'
+        cases hm'
+        exact ⟨_, Descs.get?_set_same _ _ _ _, TI.le_refl _⟩
+      · exact destClosed_mono hrow hb (hdone e' he')
+
+/-- relaxing all connections into `mid`: the invariant is kept and `mid` is closed afterwards unless it is dirty again -/
+theorem cycRelax_inv {sims : List SimCfg} (hS : Shaped sims) (hU : Uniform sims) {mid : Sid} {st0 st' : CycState}
+    (h0 : RInv sims mid st0.descs st0.dirty st0) (hr : cycRelax sims st0 mid = .ok st') :
+    RInv sims mid st0.descs st0.dirty st' ∧ (mid ∉ st'.dirty → ClosedAt sims st'.descs mid) := by
+  rw [cycRelax_eq] at hr
+  let P : List (Sid × TI) → CycState → Prop := fun done c =>
+    RInv sims mid st0.descs st0.dirty c ∧ (mid ∉ c.dirty → ∀ sd' ∈ done, PairClosed c.descs mid sd')
+  have key := foldlM_inv_done P _ (sims.getD mid {}).inputDelays [] st0 st' ⟨h0, fun _ sd' h => by cases h⟩ ?_ hr
+  · obtain ⟨hrinv, hcl⟩ := key
+    exact ⟨hrinv, fun hm sd hsd => hcl hm sd (by simpa using hsd)⟩
+  · intro done b sd b' hsd hP hg
+    exact inner_inv hS hU hsd done hP.1 hP.2 hg
+
+/-! ### the loop -/
+
+/-- the worklist invariant: every simulator that is not dirty is closed -/
+structure LInv (sims : List SimCfg) (st : CycState) : Prop where
+  real : AllReal sims st.descs
+  edge : EdgeLe sims st.descs
+  closed : ∀ x, x ∉ st.dirty → ClosedAt sims st.descs x
+
+theorem popAt_spec {l : List Sid} {i : Nat} {mid : Sid} {rest : List Sid} (h : popAt l i = some (mid, rest)) :
+    ∀ x, x ∈ l → x ≠ mid → x ∈ rest := by
+  unfold popAt at h
+  split at h
+  · cases h
+  · rename_i hne
+    simp only [Option.some.injEq, Prod.mk.injEq] at h
+    obtain ⟨hmid, hrest⟩ := h
+    intro x hx hxm
+    have hpos : 0 < l.length := by
+      cases l with
+      | nil => simp at hne
+      | cons => simp
+    have hj : i % l.length < l.length := Nat.mod_lt _ hpos
+    rw [← hrest, List.mem_eraseIdx_iff_getElem]
+    obtain ⟨k, hk, hkx⟩ := List.getElem_of_mem hx
+    refine ⟨k, hk, ?_, hkx⟩
+    intro hki
+    apply hxm
+    subst hki
+    rw [← hmid, ← hkx, List.getD_eq_getElem?_getD, List.getElem?_eq_getElem hj]
+    rfl
+
+theorem popAt_none {l : List Sid} {i : Nat} (h : popAt l i = none) : l = [] := by
+  unfold popAt at h
+  split at h
+  · rename_i he; simpa using he
+  · cases h
+
+theorem cycLoop_inv {sims : List SimCfg} (hS : Shaped sims) (hU : Uniform sims) :
+    ∀ (fuel : Nat) (st st' : CycState) (orc : List Nat), LInv sims st → cycLoop sims fuel st orc = .ok st' →
+      LInv sims st' ∧ st'.dirty = []
+  | 0, st, st', _, h, hr => by
+    unfold cycLoop at hr
+    split at hr
+    · rename_i he
+      cases hr
+      exact ⟨h, by simpa using he⟩
+    · cases hr
+  | fuel + 1, st, st', orc, h, hr => by
+    unfold cycLoop at hr
+    cases hp : popAt st.dirty (orc.headD 0) with
+    | none =>
+      rw [hp] at hr
+      cases hr
+      exact ⟨h, popAt_none hp⟩
+    | some v =>
+      obtain ⟨mid, rest⟩ := v
+      rw [hp] at hr
+      simp only at hr
+      cases hrel : cycRelax sims { st with dirty := rest } mid with
+      | error e => rw [hrel] at hr; cases hr
+      | ok st1 =>
+        rw [hrel] at hr
+        have h0 : RInv sims mid st.descs rest { st with dirty := rest } :=
+          ⟨h.real, h.edge, fun _ hx => hx, fun x hx hxm => h.closed x (fun hd => hx (popAt_spec hp x hd hxm)), fun _ _ => rfl⟩
+        obtain ⟨hr1, hmid⟩ := cycRelax_inv hS hU (st0 := { st with dirty := rest }) h0 hrel
+        refine cycLoop_inv hS hU fuel st1 st' orc.tail ⟨hr1.real, hr1.edge, fun x hx => ?_⟩ hr
+        by_cases hxm : x = mid
+        · subst hxm; exact hmid hx
+        · exact hr1.closed x hx hxm
+
+/-- in a closed table the stored delay is at most the accumulated delay of every real path -/
+theorem stored_le_path {sims : List SimCfg} {d : Descs} (hedge : EdgeLe sims d) (hcl : ∀ x, ClosedAt sims d x)
+    {s t : Sid} {p : List Sid} {dl : TI} (h : RealPath sims s t p dl) : ∃ e, d.get? s t = some e ∧ TI.le e.1 dl := by
+  induction h with
+  | edge he => exact hedge _ _ _ he
+  | @cons s m t w dm path he _ ih =>
+    obtain ⟨e, hget, hle⟩ := ih
+    obtain ⟨e', hget', hle'⟩ := hcl m (s, w) he t e hget
+    exact ⟨e', hget', TI.le_trans hle' (TI.add_mono_right w hle)⟩
+
+/-! ### the initial table -/
+
+theorem initRow_spec (dst : Sid) : ∀ (ps : List (Sid × TI)) (acc : Descs), (ps.map (·.1)).Nodup →
+    (∀ pd ∈ ps, (ps.foldl (fun acc pd => acc.set pd.1 dst (pd.2, [pd.1, dst])) acc).get? pd.1 dst = some (pd.2, [pd.1, dst])) ∧
+    (∀ s t, (t ≠ dst ∨ s ∉ ps.map (·.1)) →
+      (ps.foldl (fun acc pd => acc.set pd.1 dst (pd.2, [pd.1, dst])) acc).get? s t = acc.get? s t)
+  | [], acc, _ => ⟨fun _ h => (by cases h), fun _ _ _ => rfl⟩
+  | pd :: ps, acc, hnd => by
+    simp only [List.map_cons, List.nodup_cons] at hnd
+    obtain ⟨ih1, ih2⟩ := initRow_spec dst ps (acc.set pd.1 dst (pd.2, [pd.1, dst])) hnd.2
+    simp only [List.foldl_cons]
+    constructor
+    · intro pd' hpd'
+      rcases List.mem_cons.mp hpd' with rfl | hpd'
+      · rw [ih2 _ _ (Or.inr hnd.1)]
+        exact Descs.get?_set_same _ _ _ _
+      · exact ih1 pd' hpd'
+    · intro s t hst
+      have hst' : t ≠ dst ∨ s ∉ ps.map (·.1) := by
+        rcases hst with h | h
+        · exact Or.inl h
+        · exact Or.inr (fun hm => h (by simp only [List.map_cons, List.mem_cons]; exact Or.inr hm))
+      rw [ih2 s t hst']
+      apply Descs.get?_set_ne
+      intro heq
+      cases heq
+      rcases hst with h | h
+      · exact h rfl
+      · exact h (by simp)
+
+theorem init_spec (sims : List SimCfg) (hN : NodupKeys sims) : ∀ (l : List Nat) (acc : Descs), l.Nodup →
+    (∀ t ∈ l, ∀ pd ∈ (sims.getD t {}).inputDelays,
+      (l.foldl (fun (acc : Descs) dst =>
+        (sims.getD dst {}).inputDelays.foldl (fun acc pd => acc.set pd.1 dst (pd.2, [pd.1, dst])) acc) acc).get? pd.1 t
+        = some (pd.2, [pd.1, t])) ∧
+    (∀ s t, t ∉ l →
+      (l.foldl (fun (acc : Descs) dst =>
+        (sims.getD dst {}).inputDelays.foldl (fun acc pd => acc.set pd.1 dst (pd.2, [pd.1, dst])) acc) acc).get? s t = acc.get? s t)
+  | [], acc, _ => ⟨fun _ h => (by cases h), fun _ _ _ => rfl⟩
+  | dst :: l, acc, hnd => by
+    simp only [List.nodup_cons] at hnd
+    obtain ⟨r1, r2⟩ := initRow_spec dst (sims.getD dst {}).inputDelays acc (hN dst)
+    obtain ⟨ih1, ih2⟩ := init_spec sims hN l
+      ((sims.getD dst {}).inputDelays.foldl (fun acc pd => acc.set pd.1 dst (pd.2, [pd.1, dst])) acc) hnd.2
+    simp only [List.foldl_cons]
+    constructor
+    · intro t ht pd hpd
+      rcases List.mem_cons.mp ht with rfl | ht
+      · rw [ih2 _ _ hnd.1]
+        exact r1 pd hpd
+      · exact ih1 t ht pd hpd
+    · intro s t ht
+      simp only [List.mem_cons, not_or] at ht
+      rw [ih2 s t ht.2]
+      exact r2 s t (Or.inl ht.1)
+
+theorem inputDelays_nil_of_ge {sims : List SimCfg} {x : Sid} (h : sims.length ≤ x) : (sims.getD x {}).inputDelays = [] := by
+  rw [List.getD_eq_getElem?_getD, List.getElem?_eq_none h]; rfl
+
+theorem cycInit_inv (sims : List SimCfg) (hN : NodupKeys sims) : LInv sims (cycInit sims) := by
+  refine ⟨cycInit_real sims, ?_, ?_⟩
+  · intro t s w hw
+    have ht : t < sims.length := by
+      apply Classical.byContradiction
+      intro hn
+      rw [inputDelays_nil_of_ge (Nat.le_of_not_lt hn)] at hw
+      cases hw
+    obtain ⟨h1, _⟩ := init_spec sims hN (List.range sims.length) [] List.nodup_range
+    exact ⟨_, h1 t (List.mem_range.mpr ht) (s, w) hw, TI.le_refl _⟩
+  · intro x hx sd hsd
+    have : sims.length ≤ x := by
+      simp only [cycInit, List.mem_range] at hx
+      omega
+    rw [inputDelays_nil_of_ge this] at hsd
+    cases hsd
+
+/-! ### completeness -/
+
+theorem tiers_eq_of_le_zero {a z : List Nat} (hl : a.length = z.length) (hz : ∀ i, tier z i = 0) (h : a ≤ z) : ∀ i, tier a i = 0 := by
+  rcases TT.le_iff_lt_or_eq.mp h with hlt | heq
+  · rw [TT.lt_iff_of_length_eq hl] at hlt
+    obtain ⟨i, _, _, hi⟩ := hlt
+    rw [hz i] at hi
+    omega
+  · rw [heq]; exact hz
+
+/-- **C06, no false acceptance.**  If `ensure_no_dataflow_cycles` accepts the scenario — for whatever pop order of the
+worklist — then no cycle of connections has an all-zero accumulated delay. -/
+theorem accept_complete (sims : List SimCfg) (orc : List Nat) (hS : Shaped sims) (hN : NodupKeys sims) (hU : Uniform sims)
+    (h : ensureNoCycles sims orc = .ok) : ∀ s p d, RealPath sims s s p d → d.isZero = false := by
+  intro s p d hp
+  unfold ensureNoCycles at h
+  cases hl : cycLoop sims (closureFuel sims.length) (cycInit sims) orc with
+  | error e => rw [hl] at h; cases h
+  | ok st =>
+    rw [hl] at h
+    simp only at h
+    cases hf : cycFind sims.length st.descs with
+    | some q => rw [hf] at h; cases h
+    | none =>
+      obtain ⟨hinv, hempty⟩ := cycLoop_inv hS hU _ _ _ _ (cycInit_inv sims hN) hl
+      obtain ⟨e, hget, hle⟩ := stored_le_path hinv.edge (fun x => hinv.closed x (by rw [hempty]; simp)) hp
+      cases hz : d.isZero with
+      | false => rfl
+      | true =>
+        exfalso
+        have hzero : ∀ i, tier d.tiers i = 0 := by
+          intro i
+          unfold TI.isZero at hz
+          rw [List.all_eq_true] at hz
+          by_cases hi : i < d.tiers.length
+          · rw [tier_eq_getElem hi]
+            simpa using hz _ (List.getElem_mem hi)
+          · exact tier_eq_zero (by omega)
+        have he0 := tiers_eq_of_le_zero hle.2.2.1 hzero hle.2.2.2
+        have hez : e.1.isZero = true := by
+          unfold TI.isZero
+          rw [List.all_eq_true]
+          intro x hx
+          obtain ⟨i, hi, rfl⟩ := List.getElem_of_mem hx
+          have := he0 i
+          rw [tier_eq_getElem hi] at this
+          simpa using this
+        unfold cycFind at hf
+        rw [List.findSome?_eq_none_iff] at hf
+        have := hf s (List.mem_range.mpr (realPath_dest_lt hp))
+        rw [hget] at this
+        simp [hez] at this
+
+/-! ### no assertion fires on uniform tables -/
+
+theorem foldlM_ok {α β ε : Type} (P : β → Prop) (f : β → α → Except ε β) :
+    ∀ (l : List α) (b0 : β), P b0 → (∀ b a, a ∈ l → P b → ∃ b', f b a = .ok b' ∧ P b') → ∃ b, l.foldlM f b0 = .ok b ∧ P b
+  | [], b0, h0, _ => ⟨b0, rfl, h0⟩
+  | a :: l, b0, h0, hstep => by
+    obtain ⟨b1, hf, h1⟩ := hstep b0 a List.mem_cons_self h0
+    obtain ⟨b, hb, hP⟩ := foldlM_ok P f l b1 h1 (fun b a' ha' => hstep b a' (List.mem_cons_of_mem _ ha'))
+    exact ⟨b, by simp only [List.foldlM_cons, hf]; exact hb, hP⟩
+
+theorem relaxOne_ok {sims : List SimCfg} (hS : Shaped sims) (hU : Uniform sims) {mid : Sid} {sd : Sid × TI}
+    (hsd : sd ∈ (sims.getD mid {}).inputDelays) {c : CycState} (e : Sid × TI × List Sid) (hreal : AllReal sims c.descs) :
+    ∃ c', relaxOne mid sd c e = .ok c' ∧ AllReal sims c'.descs := by
+  unfold relaxOne
+  cases hget : c.descs.get? mid e.1 with
+  | none => exact ⟨c, rfl, hreal⟩
+  | some v =>
+    obtain ⟨m, path⟩ := v
+    simp only
+    have hmreal := hreal _ (Descs.get?_mem hget)
+    simp only at hmreal
+    have hadd : TI.add? sd.2 m = some (TI.add sd.2 m) := by
+      unfold TI.add?
+      rw [if_pos]
+      rw [(hS _ _ _ hsd).2, (realPath_shape hS hmreal).1]
+    rw [hadd]
+    simp only
+    have hnew : RealPath sims sd.1 e.1 (sd.1 :: path) (TI.add sd.2 m) := RealPath.cons hsd hmreal
+    cases hold : c.descs.get? sd.1 e.1 with
+    | none =>
+      simp only [Option.map_none, TI.updateMin?]
+      exact ⟨_, rfl, allReal_set hreal hnew⟩
+    | some a =>
+      simp only [Option.map_some]
+      have hareal := hreal _ (Descs.get?_mem hold)
+      simp only at hareal
+      have hshape : C08.SameShape a.1 (TI.add sd.2 m) := realPath_sameShape hS hU hareal hnew
+      simp only [TI.updateMin?, le?_sameShape hshape, Option.map_some]
+      by_cases hle : a.1.tiers ≤ (TI.add sd.2 m).tiers
+      · simp only [hle, decide_true, if_true]
+        exact ⟨c, rfl, hreal⟩
+      · simp only [hle, decide_false, Bool.false_eq_true, if_false]
+        exact ⟨_, rfl, allReal_set hreal hnew⟩
+
+theorem cycRelax_ok {sims : List SimCfg} (hS : Shaped sims) (hU : Uniform sims) (st : CycState) (mid : Sid)
+    (hreal : AllReal sims st.descs) : ∃ st', cycRelax sims st mid = .ok st' ∧ AllReal sims st'.descs := by
+  rw [cycRelax_eq]
+  apply foldlM_ok (fun c => AllReal sims c.descs) _ _ st hreal
+  intro b sd hsd hb
+  apply foldlM_ok (fun c => AllReal sims c.descs) _ _ b hb
+  intro c e _ hc
+  exact relaxOne_ok hS hU hsd e hc
+
+theorem cycLoop_no_assertion {sims : List SimCfg} (hS : Shaped sims) (hU : Uniform sims) :
+    ∀ (fuel : Nat) (st : CycState) (orc : List Nat), AllReal sims st.descs → cycLoop sims fuel st orc ≠ .error .assertion
+  | 0, st, _, _ => by
+    unfold cycLoop
+    split <;> simp
+  | fuel + 1, st, orc, h => by
+    unfold cycLoop
+    cases hp : popAt st.dirty (orc.headD 0) with
+    | none => simp
+    | some v =>
+      obtain ⟨mid, rest⟩ := v
+      simp only
+      obtain ⟨st1, hrel, hreal1⟩ := cycRelax_ok hS hU { st with dirty := rest } mid h
+      rw [hrel]
+      exact cycLoop_no_assertion hS hU fuel st1 orc.tail hreal1
+
+/-- on well-shaped uniform tables no assert of the delay arithmetic can fire in the cycle check (they are what finding
+D7 is about): the only error left is the model's own fuel bound -/
+theorem no_assertion_uniform (sims : List SimCfg) (orc : List Nat) (hS : Shaped sims) (hU : Uniform sims) :
+    ensureNoCycles sims orc ≠ .error .assertion := by
+  unfold ensureNoCycles
+  cases hl : cycLoop sims (closureFuel sims.length) (cycInit sims) orc with
+  | error e =>
+    simp only
+    intro h
+    cases h
+    exact cycLoop_no_assertion hS hU _ _ _ (cycInit_real sims) hl
+  | ok st =>
+    simp only
+    split <;> simp
+
+/-! ### a sufficient condition for `Uniform` -/
+
+theorem realPath_cutoff_const {sims : List SimCfg} {c : Nat} (hc : ∀ t s d, (s, d) ∈ (sims.getD t {}).inputDelays → d.cutoff = c)
+    {s t : Sid} {p : List Sid} {d : TI} (h : RealPath sims s t p d) : d.cutoff = c := by
+  induction h with
+  | edge he => exact hc _ _ _ he
+  | cons he _ ih => simp [TI.add, hc _ _ _ he, ih]
+
+/-- all connections have the same cutoff (e.g. a scenario without groups: every cutoff is 1) -/
+theorem uniform_of_const_cutoff {sims : List SimCfg} {c : Nat}
+    (hc : ∀ t s d, (s, d) ∈ (sims.getD t {}).inputDelays → d.cutoff = c) : Uniform sims :=
+  fun _ _ _ _ _ _ h h' => (realPath_cutoff_const hc h).trans (realPath_cutoff_const hc h').symm
+
+/-! ### the executable hypothesis checks are sound -/
+
+theorem mem_inputDelays_lt {sims : List SimCfg} {t : Sid} {sd : Sid × TI} (h : sd ∈ (sims.getD t {}).inputDelays) : t < sims.length := by
+  apply Classical.byContradiction
+  intro hn
+  rw [inputDelays_nil_of_ge (Nat.le_of_not_lt hn)] at h
+  cases h
+
+theorem shapedB_sound {sims : List SimCfg} (h : shapedB sims = true) : Shaped sims := by
+  intro t s d hd
+  unfold shapedB at h
+  rw [List.all_eq_true] at h
+  have := h t (List.mem_range.mpr (mem_inputDelays_lt hd))
+  rw [List.all_eq_true] at this
+  have := this (s, d) hd
+  simpa using this
+
+theorem nodupKeysB_sound {sims : List SimCfg} (h : nodupKeysB sims = true) : NodupKeys sims := by
+  intro t
+  by_cases ht : t < sims.length
+  · unfold nodupKeysB at h
+    rw [List.all_eq_true] at h
+    simpa using h t (List.mem_range.mpr ht)
+  · rw [inputDelays_nil_of_ge (Nat.le_of_not_lt ht)]
+    simp
+
+theorem constCutoffB_sound {sims : List SimCfg} (h : constCutoffB sims = true) : Uniform sims := by
+  unfold constCutoffB at h
+  simp only at h
+  apply uniform_of_const_cutoff (c := (((sims.flatMap (·.inputDelays)).head?).map (·.2.cutoff)).getD 1)
+  intro t s d hd
+  rw [List.all_eq_true] at h
+  have := h t (List.mem_range.mpr (mem_inputDelays_lt hd))
+  rw [List.all_eq_true] at this
+  have := this (s, d) hd
+  simpa using this
+
 end Mosaik
